@@ -197,7 +197,8 @@ def generate(read):
     info["NL_MAXCAPTURES"] = int(need(r"capture: \[(\d+)\]StrPattCapture", sp, "capture array size").group(1))
     st = read("lib/string.nelua")
     info["GMATCH_MAX_CAPTURES"] = int(need(r"local MAX_CAPTURES <comptime> = (\d+)", st, "gmatch MAX_CAPTURES").group(1))
-    info["gmatch_has_lastmatch"] = bool(re.search(r"function string\.gmatch\(.*?lastmatch.*?\n-- Like `string\.gmatch`", st, re.S))
+    info["gmatch_has_lastmatch"] = bool(re.search(r"function string\.gmatch\(.*?state\.lastend = endpos \+ 1.*?\n-- Like `string\.gmatch`", st, re.S))
+    info["gmatch_caret_is_literal"] = st.count("state.ms.anchor = false") >= 2
     u8 = read("lib/utf8.nelua")
     info["NL_MAXUNICODE"] = cnum(need(r"local MAXUNICODE: uint32 <comptime> = (\w+)", u8, "MAXUNICODE").group(1))
     info["NL_MAXUTF"] = cnum(need(r"local MAXUTF: uint32 <comptime> = (\w+)", u8, "MAXUTF").group(1))
@@ -208,6 +209,10 @@ def generate(read):
         lims.append(0xFFFFFFFF if x.startswith("~0") else cnum(x))
     info["NL_UTF8_LIMITS"] = lims
     info["NL_UTF8ESC_MAX"] = cnum(need(r"check\(x <= (\w+)\)", u8, "utf8esc bound").group(1))
+    mm = re.findall(r"check\(va?l? >= 0 and va?l? <= (\w+), 'value out of range'\)", u8)
+    if len(mm) != 2 or len(set(mm)) != 1:
+        raise RuntimeError("cannot find the two range checks of utf8.char (before the cast to uint32)")
+    info["NL_UTF8CHAR_MAX"] = cnum(mm[0])
     sur = need(r"\((0x[0-9A-Fa-f]+) <= code and code <= (0x[0-9A-Fa-f]+)\)", u8, "surrogate range")
     info["NL_SURR_LO"], info["NL_SURR_HI"] = int(sur.group(1), 16), int(sur.group(2), 16)
 
@@ -230,7 +235,7 @@ def generate(read):
 
     out.append("")
     for k in ["MAX_MATCH_CALLS", "CAP_UNFINISHED", "CAP_POSITION", "NL_MAXCAPTURES", "GMATCH_MAX_CAPTURES",
-              "NL_MAXUNICODE", "NL_MAXUTF", "NL_UTF8ESC_MAX", "NL_SURR_LO", "NL_SURR_HI",
+              "NL_MAXUNICODE", "NL_MAXUTF", "NL_UTF8ESC_MAX", "NL_UTF8CHAR_MAX", "NL_SURR_LO", "NL_SURR_HI",
               "LUA_MAXCCALLS", "LUA_MAXCAPTURES", "LUA_MAXSIZE", "LUA_MAXUNICODE", "LUA_MAXUTF"]:
         out.append("Definition %s : Z := (%d)%%Z." % (k, info[k]))
     out.append("Definition NL_UTF8_LIMITS : list Z := [%s]." % "; ".join(str(x) for x in lims))
